@@ -866,6 +866,34 @@ def _numstr_binop(self, it, op, other, reflected):
 UD.SNumStr.sv_binop = _numstr_binop
 
 
+def _super_getitem(it, obj):
+    """ndarray.__getitem__ on a unyt_array: an index selecting one element gives a NumPy
+    scalar (shape (), fresh memory, bare); any other index gives an array of the same class
+    (units and name copied by __array_finalize__) -- a view for basic indexing, a copy for
+    fancy indexing (memory identity is left open here: the shared-buffer case is the one that
+    matters for aliasing and is the one modelled)"""
+    def getitem(it_, key):
+        if it_.branch(it_.fresh_bool("index_selects_one_element")):
+            b = SBuf(arr_elem(obj), arr_kind(obj), arr_itemsize(obj))
+            return SNd(b, True, 1, "np_scalar")
+        o = SObj(obj.cls, label="indexed_" + obj.cls.name)
+        o.fields["_buf"] = arr_buf(obj)
+        scalar, size = fresh_shape(it_, "indexed")
+        it_.assume(z3.Not(scalar))
+        o.fields["_scalar"] = scalar
+        o.fields["_size"] = size
+        o.fields["units"] = obj.fields["units"]
+        o.fields["name"] = obj.fields.get("name")
+        return o
+    return Intrinsic("ndarray.__getitem__", getitem)
+
+
+UD.SUPER_ATTR[("unyt_array", "__getitem__")] = _super_getitem
+assumed("numpy-indexing", "ndarray.__getitem__ on a subclass returns a NumPy scalar (shape ()) when "
+        "the index selects one element, otherwise an array of the same class whose units/name were "
+        "copied by __array_finalize__")
+
+
 def install(domain_cls):
     """hook array behaviour of unyt_array SObj's into the domain"""
     orig_getattr = domain_cls.obj_getattr
